@@ -219,7 +219,7 @@ func drive(id string) int {
 			sh.Seed = uint64(c.Seed)
 			js, _ := json.Marshal(sh)
 			cmd := exec.Command(os.Args[0], "shard", string(js))
-			cmd.Env = append(os.Environ(), "GOMAXPROCS=2")
+			cmd.Env = append(os.Environ(), "GOMAXPROCS=1")
 			var stderr strings.Builder
 			cmd.Stderr = &stderr
 			out, err := cmd.Output()
